@@ -288,3 +288,61 @@ func verifH_C14_validation_handler() {
 	}
 	verifReach("end")
 }
+
+//verif:harness id=C14 tier=quick,thorough witness=end bounds="ConvertErrors / ValidationErrorEncoder on every RequestError shape: parameter absent or in {path,query,header}, request body absent or present, Err in {nil, ErrInvalidRequired, ErrInvalidEmptyValue, ParseError of 3 kinds with cause nil / ParseError / other, SchemaError with and without Origin, other error}, Reason with and without the content-type prefixes; RouteError of both kinds: no panic, and what the encoder writes is a 4xx status for every converted error"
+func verifH_C14_convert_errors() {
+	str := &openapi3.SchemaRef{Value: &openapi3.Schema{Type: &openapi3.Types{"string"}}}
+	re := &RequestError{Input: &RequestValidationInput{}}
+	switch verifChoose("param", 4) {
+	case 1:
+		re.Parameter = &openapi3.Parameter{Name: "p", In: "path", Schema: str}
+	case 2:
+		re.Parameter = &openapi3.Parameter{Name: "p", In: "query", Schema: str}
+	case 3:
+		re.Parameter = &openapi3.Parameter{Name: "p", In: "header", Schema: str}
+	}
+	if verifChoose("body", 2) == 1 {
+		re.RequestBody = &openapi3.RequestBody{}
+	}
+	re.Reason = []string{"", "doesn't match schema", prefixInvalidCT + ` ""`, prefixInvalidCT + ` "text/x"`}[verifChoose("reason", 4)]
+	kinds := []ParseErrorKind{KindOther, KindUnsupportedFormat, KindInvalidFormat}
+	switch verifChoose("err", 8) {
+	case 1:
+		re.Err = ErrInvalidRequired
+	case 2:
+		re.Err = ErrInvalidEmptyValue
+	case 3:
+		re.Err = &ParseError{Kind: kinds[verifChoose("kind", 3)], Value: "v", Reason: "r"}
+	case 4:
+		re.Err = &ParseError{Kind: kinds[verifChoose("kind", 3)], Value: "v", Reason: "r", Cause: &ParseError{Kind: kinds[verifChoose("ckind", 3)], Value: "w", Reason: "c"}}
+		if verifChoose("root", 2) == 1 {
+			re.Err.(*ParseError).Cause.(*ParseError).Cause = errors.New("root cause")
+		}
+	case 5:
+		re.Err = &ParseError{Kind: kinds[verifChoose("kind", 3)], Reason: prefixUnsupportedCT + " x", Cause: errors.New("other")}
+	case 6:
+		re.Err = &openapi3.SchemaError{Value: "v", Schema: str.Value, SchemaField: "type", Reason: "r"}
+	case 7:
+		re.Err = &openapi3.SchemaError{Value: "v", Schema: str.Value, SchemaField: "oneOf", Reason: "r", Origin: &openapi3.SchemaError{Value: "w", Schema: str.Value, SchemaField: "type", Reason: "o"}}
+	}
+	if _, isSchemaErr := re.Err.(*openapi3.SchemaError); isSchemaErr {
+		// the validators attach a schema error to the parameter or the body it belongs to
+		verifAssume(re.Parameter != nil || re.RequestBody != nil)
+	}
+	var err error = re
+	switch verifChoose("route", 3) {
+	case 1:
+		err = routers.ErrPathNotFound
+	case 2:
+		err = routers.ErrMethodNotAllowed
+	}
+	out := ConvertErrors(err)
+	verifAssert(out != nil, "C14 convert: an error stays an error")
+	rec := &verifRecorder{header: http.Header{}}
+	(&ValidationErrorEncoder{Encoder: DefaultErrorEncoder}).Encode(context.Background(), err, rec)
+	verifAssert(rec.wroteHeader, "C14 convert: the encoder answers")
+	if ve, ok := out.(*ValidationError); ok {
+		verifAssert(ve.Status >= 400 && ve.Status < 500 && rec.status == ve.Status, "C14 convert: a converted error is answered with its 4xx status")
+	}
+	verifReach("end")
+}
